@@ -13,8 +13,8 @@ func init() {
 	Props["C16"] = Prop{
 		Title: "Console encoder lines have the documented shape with a valid JSON context",
 		Fn:    checkC16,
-		Explanation: "Decides the console line's structure: the columns time, level, name, caller, function are collected in exactly this order, each under exactly its presence rule (key set, encoder set where one is needed, entry carries the value), joined with the configured separator only between elements; the message (whenever its key is set) and the context are each preceded by 'separator if the line is non-empty'; the context is rendered by a CLONE of the embedded spaced JSON encoder that receives the call-site fields, closes its open namespaces before the emptiness test, is wrapped in braces and released - so its well-formedness reduces to the JSON encoder's own rules (C01), which cover the same methods; the stack follows after a newline under its presence rule, and the line ending is last; the constructor defaults the separator to a tab and builds the JSON part in spaced mode; every optional column encoder call is nil-guarded. " +
-			"NOT decided: what user column encoders print, fmt.Fprint of column elements.",
+		Explanation: "Decides the console line's structure. The metadata columns are collected in the order time, level, name, caller, function, each under exactly its presence rule (guard-set equality). The grammar of the line itself is decided by exploring every path of consoleEncoder.EncodeEntry (its own helpers inline, the join loop walked for up to three columns, deferred functions run at their function's return) and matching the writes to the line buffer against: columns joined by the configured separator placed before every column but the first; [separator iff the line is non-empty, message]; the context rendered on a COPYING clone of the embedded spaced JSON encoder (it carries the With-context bytes) that receives the call-site fields and closes its open namespaces before its emptiness is tested, and, if non-empty, written as separator-iff-non-empty '{' bytes '}'; the clone's buffer freed and the clone recycled only after its bytes were copied; [newline, stack]; line ending last. The context's own well-formedness reduces to the JSON encoder's rules (C01), which cover the same methods. The constructor defaults the separator to a tab and builds the JSON part in spaced mode; every optional column encoder call is nil-guarded; encoding never stores through the shared encoder. " +
+			"NOT decided: what user column encoders print, fmt.Fprint of column elements, lines with more than three metadata columns beyond the per-column step.",
 		Assumptions: commonAssumptions,
 	}
 }
